@@ -270,9 +270,9 @@ func init() {
 		Assume: []string{"encoding/json as the parser of the rendering; map keys restricted to valid UTF-8 for the rendering comparison"},
 		Plan: func(tier string) []core.Lane {
 			if tier == "thorough" {
-				return []core.Lane{{Lane: "plain", Cases: 60000, Shards: 16, TimeoutS: 3600}}
+				return []core.Lane{{Lane: "plain", Cases: 1800000, Shards: 16, TimeoutS: 3600}}
 			}
-			return []core.Lane{{Lane: "plain", Cases: 3200, Shards: 16, TimeoutS: 1200}}
+			return []core.Lane{{Lane: "plain", Cases: 12000, Shards: 16, TimeoutS: 1200}}
 		},
 		Case: c16Case,
 	})
